@@ -103,7 +103,7 @@ def plan(tier, seed):
             if alg in (0, 3, 4): d["VPARENT_CONC"] = None   # PLE-based / naive routes test whole rows for zero: symbolic parent bits in the shared word would make control symbolic
             kw = {}
             if alg == 4: kw["replace_calls"] = {"_mzd_density": "verif_density_stub"}; d["DENSSEQ"] = 1
-            if alg == 0: kw["unwindset"] = {"mzd_gauss_delayed": 10}
+            if alg == 0: kw["unwindset"] = {"mzd_gauss_delayed": 140}
             V("ech%d-f%d-8x134" % (alg, full), "c02.c", d, 4, 1, 70, cbmc_flags=FS, timeout=1500, mem_gb=10, **kw)
             V("ech%d-f%d-8x134" % (alg, full), "c02.c", d, 4, 2, 0, cbmc_flags=FS, timeout=1500, mem_gb=10, **kw)
     for full in (0, 1):
